@@ -122,7 +122,10 @@ def apply(F, S, exceptions=EXCEPTIONS):
                     g = F.fn_by_path[site["path"]]
                     nm = srcnames.div_names(g, site["block"], site["stmt"])
                     key = (site["fn"], site["block"], site["stmt"])
-                    rec = sites.setdefault(key, {"fn": site["fn"], "den": nm[1], "num": nm[0], "span": site["span"], "visits": [], "guards": []})
+                    # a division inside a context-bound helper / closure belongs to the method it is inlined into (first root reaching it):
+                    # moving `a / b` into a private accessor is not a new division
+                    owner = lab if (g.path in F.helpers() or g.kind == "Closure") else site["fn"]
+                    rec = sites.setdefault(key, {"fn": owner, "den": nm[1], "num": nm[0], "span": site["span"], "visits": [], "guards": []})
                     rec["visits"].append((s, den, show(site["operands"]["den"])[:120]))
                     rec.setdefault("den_terms", []).append(site["operands"]["den"])
                     if not den.contains_zero():
